@@ -11,16 +11,25 @@
 (* Crash is enabled between any two.  What a process kill leaves behind is *)
 (* the durable part (MAP_SHARED stores survive a SIGKILL).                 *)
 (*                                                                         *)
-(* Deviation switches (both TRUE on the repaired tree):                    *)
+(* Deviation switches (all TRUE on the repaired tree):                     *)
 (*   AtomicPut      Put is one critical section (alloc, copy, publish)     *)
 (*   ClampConsumed  a reloaded group raises consumed together with ack     *)
+(*   MetaByPage     "this group has stored positions" is decided by the    *)
+(*                  existence of its meta PAGE FILE (FALSE: by the         *)
+(*                  existence of its directory, which the page factory     *)
+(*                  makes before any page: positions are then read from a  *)
+(*                  page file that was created, zero-filled, just now)     *)
+(* Creation of a consumer group is two durable steps: the directory        *)
+(* (`mkgdir`, made by the page factory constructor) and the meta page file *)
+(* with its first two stores (`mkgroup`).  A page acquisition that fails   *)
+(* (CreateGroupFail) or a kill between the two leaves the directory alone. *)
 (* Documented abstractions: creation of a meta page file and its first     *)
 (* stores are one step (see DESIGN.md, C05/C06 notes); index pages never   *)
 (* roll over inside the bounds (262144 entries per page).                  *)
 (***************************************************************************)
 EXTENDS Integers, Sequences, FiniteSets, TLC
 
-CONSTANTS PageSize, AtomicPut, ClampConsumed
+CONSTANTS PageSize, AtomicPut, ClampConsumed, MetaByPage
 
 VARIABLES
   \* ---- durable ----
@@ -28,7 +37,8 @@ VARIABLES
   data,     \* set of [page, off, len, id]: extents whose bytes are the payload `id`
   dpages,   \* data page files that exist
   meta,     \* [app, ack]: queue meta page
-  gd,       \* [group -> [cons, ack]]: consumer group meta pages (domain = directories that exist)
+  gd,       \* [group -> [cons, ack]]: consumer group meta pages (domain = groups whose meta page FILE exists)
+  gdir,     \* set of groups whose directory exists (a superset of DOMAIN gd)
   \* ---- volatile ----
   open, mApp, mAck, curPage, curOff,
   gm,       \* [group -> [cons, ack]]: groups in the fan-out map (memory copies)
@@ -37,8 +47,8 @@ VARIABLES
   truth,    \* [seq -> id]: the payload whose append returned success under that sequence
   res       \* [thread -> result of its last completed call] (output only)
 
-vars == <<idx, data, dpages, meta, gd, open, mApp, mAck, curPage, curOff, gm, ops, truth, res>>
-durable == <<idx, data, dpages, meta, gd>>
+vars == <<idx, data, dpages, meta, gd, gdir, open, mApp, mAck, curPage, curOff, gm, ops, truth, res>>
+durable == <<idx, data, dpages, meta, gd, gdir>>
 
 Empty == [x \in {} |-> 0]
 Put1(f, k, v) == [x \in (DOMAIN f) \cup {k} |-> IF x = k THEN v ELSE f[x]]
@@ -51,7 +61,7 @@ IdxAt(s) == IF s \in DOMAIN idx THEN idx[s] ELSE ZeroEntry
 
 Init ==
   /\ idx = Empty /\ data = {} /\ dpages = {0}
-  /\ meta = [app |-> -1, ack |-> -1] /\ gd = Empty
+  /\ meta = [app |-> -1, ack |-> -1] /\ gd = Empty /\ gdir = {}
   /\ open = TRUE /\ mApp = -1 /\ mAck = -1 /\ curPage = 0 /\ curOff = 0
   /\ gm = Empty /\ ops = Empty /\ truth = Empty /\ res = Empty
 
@@ -71,26 +81,29 @@ ApplyStore(st) ==
          /\ data' = IF st.len = 0 THEN data
                     ELSE {e \in data : ~Overlaps(e, st)} \cup
                          {[page |-> st.page, off |-> st.off, len |-> st.len, id |-> st.id]}
-         /\ UNCHANGED <<idx, dpages, meta, gd>>
+         /\ UNCHANGED <<idx, dpages, meta, gd, gdir>>
     [] st.k = "idx" ->
          /\ idx' = Put1(idx, st.seq, [IdxAt(st.seq) EXCEPT ![st.f] = st.v])
-         /\ UNCHANGED <<data, dpages, meta, gd>>
+         /\ UNCHANGED <<data, dpages, meta, gd, gdir>>
     [] st.k = "meta" ->
          /\ meta' = [meta EXCEPT ![st.f] = st.v]
-         /\ UNCHANGED <<idx, data, dpages, gd>>
+         /\ UNCHANGED <<idx, data, dpages, gd, gdir>>
     [] st.k = "g" ->
          /\ gd' = [gd EXCEPT ![st.g][st.f] = st.v]
-         /\ UNCHANGED <<idx, data, dpages, meta>>
-    [] st.k = "mkgroup" ->     \* directory + meta page file + its two first stores (abstraction)
+         /\ UNCHANGED <<idx, data, dpages, meta, gdir>>
+    [] st.k = "mkgdir" ->      \* the group's directory (page factory constructor), no page file yet
+         /\ gdir' = gdir \cup {st.g}
+         /\ UNCHANGED <<idx, data, dpages, meta, gd>>
+    [] st.k = "mkgroup" ->     \* meta page file in the existing directory + its two first stores (abstraction)
          /\ gd' = Put1(gd, st.g, [cons |-> st.cons, ack |-> st.ack])
-         /\ UNCHANGED <<idx, data, dpages, meta>>
+         /\ UNCHANGED <<idx, data, dpages, meta, gdir>>
     [] st.k = "mkpage" ->
          /\ dpages' = dpages \cup {st.page}
-         /\ UNCHANGED <<idx, data, meta, gd>>
+         /\ UNCHANGED <<idx, data, meta, gd, gdir>>
     [] st.k = "rmpage" ->      \* the page file is removed: its bytes are gone
          /\ dpages' = dpages \ {st.page}
          /\ data' = {e \in data : e.page # st.page}
-         /\ UNCHANGED <<idx, meta, gd>>
+         /\ UNCHANGED <<idx, meta, gd, gdir>>
 
 \* ------------------------------------------------------------------ what each call does
 \* Each operator returns [todo |-> Seq(store), later |-> set of Seq(store), eff |-> effect record].
@@ -115,10 +128,17 @@ PutPersistStores(a, len, s) ==
      [k |-> "idx", seq |-> s, f |-> "len", v |-> len],
      [k |-> "meta", f |-> "app", v |-> s] >>
 
-GroupLoad(g) ==   \* NewConsumerGroup on an existing directory: positions read, ack clamped
-  LET a == Max2(gd[g].ack, mAck)
-      c == IF ClampConsumed /\ gd[g].cons < a THEN a ELSE gd[g].cons
+\* NewConsumerGroup: does the group have stored positions?  (the code: the meta page file exists)
+HasMeta(g) == IF MetaByPage THEN g \in DOMAIN gd ELSE g \in gdir
+\* what is read from the group's meta page (a page file that is created by this very call is zero-filled)
+StoredPos(g) == IF g \in DOMAIN gd THEN gd[g] ELSE [cons |-> 0, ack |-> 0]
+\* positions read from the page, acknowledged raised to the queue-wide position qa, consumed raised with it
+Clamped(p, qa) ==
+  LET a == Max2(p.ack, qa)
+      c == IF ClampConsumed /\ p.cons < a THEN a ELSE p.cons
   IN [cons |-> c, ack |-> a]
+GroupLoad(g) == Clamped(StoredPos(g), mAck)   \* NewConsumerGroup on a group with stored positions
+FreshPos == [cons |-> -1, ack |-> -1]        \* ... and on a group without: it starts before the first message
 
 GroupStores(g, c, a) == << [k |-> "g", g |-> g, f |-> "cons", v |-> c],
                            [k |-> "g", g |-> g, f |-> "ack", v |-> a] >>
@@ -240,15 +260,25 @@ GCStart(t) ==
      IN Begin(t, Op("GC", [x |-> 0], << >>, {<< [k |-> "rmpage", page |-> q] >> : q \in dead}, NoEff, 0))
   /\ Rest
 
+\* GetOrCreateConsumerGroup of a group that is not in the map.  The page factory makes the directory if it
+\* is missing; a group WITHOUT a meta page file - brand new, or a directory left behind by a failed / killed
+\* creation - is a fresh group; a group WITH one continues from its stored positions.
+MkDirStores(g) == IF g \in gdir THEN << >> ELSE << [k |-> "mkgdir", g |-> g] >>
 CreateGroupStart(t, g) ==
   /\ open /\ Quiet /\ g \notin DOMAIN gm
-  /\ IF g \in DOMAIN gd
-       THEN LET p == GroupLoad(g) IN
-            Begin(t, Op("CreateGroup", [g |-> g], GroupStores(g, p.cons, p.ack), {},
-                        [k |-> "gopen", g |-> g, cons |-> p.cons, ack |-> p.ack], 0))
-       ELSE Begin(t, Op("CreateGroup", [g |-> g],
-                        << [k |-> "mkgroup", g |-> g, cons |-> -1, ack |-> -1] >>, {},
-                        [k |-> "gopen", g |-> g, cons |-> -1, ack |-> -1], 0))
+  /\ LET p == IF HasMeta(g) THEN GroupLoad(g) ELSE FreshPos
+         st == IF g \in DOMAIN gd
+                 THEN GroupStores(g, p.cons, p.ack)
+                 ELSE MkDirStores(g) \o << [k |-> "mkgroup", g |-> g, cons |-> p.cons, ack |-> p.ack] >>
+     IN Begin(t, Op("CreateGroup", [g |-> g], st, {},
+                    [k |-> "gopen", g |-> g, cons |-> p.cons, ack |-> p.ack], 0))
+  /\ Rest
+
+\* ... whose meta page file cannot be created (open / truncate / mmap fails): the call returns the error, the
+\* group is not in the map, nothing but the directory (made before the page is acquired) is left behind
+CreateGroupFailStart(t, g) ==
+  /\ open /\ Quiet /\ g \notin DOMAIN gm /\ g \notin DOMAIN gd
+  /\ Begin(t, Op("CreateGroupFail", [g |-> g], MkDirStores(g), {}, NoEff, 0))
   /\ Rest
 
 StopGroup(t, g) ==       \* no store: the group leaves the map, its meta stays on disk
@@ -301,8 +331,10 @@ Down ==     \* Close() and a kill leave the same durable state: every store alre
   /\ UNCHANGED <<durable, mApp, mAck, curPage, curOff, truth, res>>
 
 \* NewFanOutQueue on the directory: sequences from the meta page, cursor from the last appended
-\* entry, every group directory loaded.  (A kill inside this sequence leaves a state that the
-\* next Reopen treats the same way: the stores only rewrite loaded values.)
+\* entry, every group directory loaded - NewConsumerGroup per directory entry: a directory without
+\* meta page file (kill / fault inside the creation) becomes a fresh group, its page file is made now.
+\* (A kill inside this sequence leaves a state that the next Reopen treats the same way: the stores
+\* only rewrite loaded values / create fresh pages.)
 Reopen ==
   /\ ~open /\ open' = TRUE
   /\ mApp' = meta.app /\ mAck' = meta.ack
@@ -311,13 +343,11 @@ Reopen ==
      IN /\ curPage' = p
         /\ curOff' = IF meta.app = -1 THEN 0 ELSE e.off + e.len
         /\ dpages' = dpages \cup {p}
-  /\ LET ld(g) == LET a == Max2(gd[g].ack, meta.ack)
-                      c == IF ClampConsumed /\ gd[g].cons < a THEN a ELSE gd[g].cons
-                  IN [cons |-> c, ack |-> a]
-     IN /\ gm' = [g \in DOMAIN gd |-> ld(g)]
-        /\ gd' = [g \in DOMAIN gd |-> ld(g)]
+  /\ LET ld(g) == IF HasMeta(g) THEN Clamped(StoredPos(g), meta.ack) ELSE FreshPos
+     IN /\ gm' = [g \in gdir |-> ld(g)]
+        /\ gd' = [g \in gdir |-> ld(g)]
   /\ ops' = Empty
-  /\ UNCHANGED <<idx, data, meta, truth, res>>
+  /\ UNCHANGED <<idx, data, meta, gdir, truth, res>>
 
 \* ------------------------------------------------------------------ properties
 Live == {s \in DOMAIN truth : s > mAck /\ s <= mApp}
@@ -335,6 +365,9 @@ DurablyReadable ==
 Dense == \A t \in DOMAIN ops : ops[t].name = "Put" => ops[t].res = mApp + 1
 MemoryMatchesDisk == (open /\ Quiet) => (mApp = meta.app /\ mAck = meta.ack
                                         /\ \A g \in DOMAIN gm : g \in DOMAIN gd /\ gm[g] = gd[g])
+
+\* a meta page file lives in its group's directory
+GroupDirs == DOMAIN gd \subseteq gdir
 
 \* C06
 GroupOrder == (open /\ Quiet) => \A g \in DOMAIN gm : gm[g].ack <= gm[g].cons /\ gm[g].cons <= mApp
